@@ -399,7 +399,8 @@ def gen_schema(r, name, feat):
             taken.add(an)
             e["attrs"].append({"name": e["name"][:2] + "_" + an, "type": rand_attr_type(), "optional": r.random() < 0.25})
         if r.random() < 0.25:
-            e["derived"].append({"name": e["name"][:2] + "_dv", "type": {"k": "real"}, "value": "3.5"})
+            # (the entity's full name: two entities sharing their first letters would otherwise hand one subtype the same derived attribute twice)
+            e["derived"].append({"name": e["name"] + "_dv", "type": {"k": "real"}, "value": "3.5"})
 
     sch = Schema({"name": name, "types": types, "entities": ents})
     # redeclare an inherited simple attribute as derived (written `*` in the inherited slot)
